@@ -3,9 +3,10 @@
 
    What is proved: coalesce, rewrite and the flattening pass shake_0 preserve the
    three-valued result exactly, for every document, on trees of the shape the loader
-   produces and outside the two known classes of shake_0 (D13 double negation, D14
-   singleton under a quantifier); the known classes are refuted on the faithful model by
-   explicit witnesses.  The first versions of three statements were FALSE for hand-built
+   produces and outside the known class of shake_0 (D13 double negation); the known classes
+   are refuted on the faithful model by explicit witnesses.  Class D14 (a one-member group
+   under a quantifier) is fixed in the crate: its former witness keeps its verdict now
+   (fixed_D14), and Properties/C01_d14.v drops the hypothesis sh0 for groups.  The first versions of three statements were FALSE for hand-built
    trees the loader cannot produce (a nested block around all(identifier); empty groups;
    comparisons whose operands are groups); the counterexamples are kept in Proofs/C01.v as
    `*_refuted` lemmas and the statements below carry the shape hypotheses the proofs
@@ -13,7 +14,8 @@
      no_nested   the condition has no nested block (the Pratt parser cannot build one);
      cmp_leaves  comparison operands are leaves (all led_check ever builds);
      sh0         the operand of a quantifier is a group without exactly one member, or a
-                 non-group that is not an and/or chain;
+                 non-group that is not an and/or chain (since fix D14 stronger than needed:
+                 see Properties/C01_d14.v);
      shx         no empty group; comparison operands are leaves; the body of a nested block
                  is not a chain of one-member groups ending in all(or-group);
      no_dneg     no Negate whose operand will shake to a Negate (class D13).
@@ -145,14 +147,16 @@ Example refuted_D13 :
   exists r', optimise o0 (fun k => k) sw_only_shake r = Ok r' /\ matches o0 r' d = Ok false.
 Proof. exact C01.refuted_D13. Qed.
 Check refuted_D13.
-Example refuted_D14 :
+(* class D14 is fixed in the crate: the former witness keeps its verdict and its one-member group *)
+Example fixed_D14 :
   let body := EGroup BOr [ESearch (SAho [MTContains [97%N]; MTContains [98%N]] false) [102%N] false] in
   let r := mk_rule (EMatch (MOf 2) (EIdent [88%N])) [([88%N], body)] in
   let d : doc := fun k => if str_eqb k [102%N] then Some (VStr [97%N; 98%N]) else None in
   matches o0 r d = Ok false /\
-  exists r', optimise o0 (fun k => k) sw_coalesce_shake r = Ok r' /\ matches o0 r' d = Ok true.
-Proof. exact C01.refuted_D14. Qed.
-Check refuted_D14.
+  exists r', optimise o0 (fun k => k) sw_coalesce_shake r = Ok r' /\
+             d_expr (r_det r') = EMatch (MOf 2) body /\ matches o0 r' d = Ok false.
+Proof. exact C01.fixed_D14. Qed.
+Check fixed_D14.
 Example refuted_D16 :
   let body := EGroup BAnd [ENested [120%N] (EBexp (EField [97%N]) BEqual (EInt 1));
                            ENested [121%N] (EBexp (EField [98%N]) BEqual (EInt 2))] in
